@@ -194,7 +194,7 @@ def finish(sc, rng, ending, partials):
     if ending == "partial":
         p = rng.choice(partials)
         sc.desc.append("partial:%s" % p.decode("latin-1"))
-        ev = [] if sc.proto == "lmtp" else [ev_data(p, False)]
+        ev = [] if sc.proto == "lmtp" else [ev_data(p, True)]
         sc.step(p, "quiet:120", ev, compare=False)
         ending = "close"
         if sc.proto != "lmtp":
@@ -499,7 +499,7 @@ def run(chk):
         {"op": "c20_srv_start", "srv": "s", "svc": "lmtp", "timeout_s": 30},
         {"op": "c20_srv_dial", "srv": "s", "conn": "a"},
         {"op": "send", "conn": "a", "data": "LHLO x\r\nMAIL FROM:<a@b.test>\r\nRCPT TO:<u1@example.com>\r\nDATA\r\n", "until": "lmtp:4"},
-        {"op": "send", "conn": "a", "data": "Subject: c20-inflight-token\r\n\r\nhalf\r\n", "until": "quiet:50"},
+        {"op": "send", "conn": "a", "data": "From: a@b.test\r\nTo: u1@example.com\r\nSubject: c20-inflight-token\r\n\r\nhalf\r\n", "until": "quiet:50"},
         {"op": "c20_srv_shutdown", "srv": "s", "timeout_ms": 2000},
         {"op": "c20_srv_dial", "srv": "s", "conn": "b"},
         {"op": "send", "conn": "a", "data": "rest\r\n.\r\n", "until": "lmtp:1"},
@@ -595,7 +595,7 @@ def run(chk):
     if late.get("refused") is not True:
         chk.violation("a connection was accepted after lmtp.Shutdown returned", p)
     acked = fin.get("recv", "").startswith("250")
-    stored = "c20-inflight-token" in json.dumps(dump)
+    stored = any(st.get("links") and st.get("messages") for st in (dump.get("stores") or {}).values() if isinstance(st, dict))
     if acked and not stored:
         chk.violation("the transaction in flight at Shutdown was acknowledged with 250 but is not in the store", p)
     if not acked:
